@@ -2,8 +2,10 @@ package props
 
 import (
 	"fmt"
+	"net/http"
 	"os"
 	"strconv"
+	"time"
 
 	"github.com/vicanso/pike/cache"
 	"github.com/vicanso/pike/config"
@@ -28,7 +30,9 @@ type keySys struct {
 	// originAge: Age header the origin adds to cacheable answers ("" = none)
 	originAge string
 	sMaxAge   bool // the origin states the lifetime as s-maxage instead of max-age
-	lastObs   string
+	// originDate: "" = no Date header, otherwise the origin's Date is its clock plus this many seconds (skew)
+	originDate string
+	lastObs    string
 	// store: "" none, "ttl" store that expires records itself, "lazy" store that hands back expired records
 	store   string
 	st      *env.FaultStore
@@ -69,6 +73,10 @@ func (s *keySys) Reset() {
 			}
 			if s.originAge != "" {
 				r.Header.Set("Age", s.originAge)
+			}
+			if s.originDate != "" {
+				skew, _ := strconv.ParseInt(s.originDate, 10, 64)
+				r.Header.Set("Date", time.Unix(vtime.Get()+skew, 0).UTC().Format(http.TimeFormat))
 			}
 			return r
 		case "uncacheable":
